@@ -256,6 +256,18 @@ def body_kl_and_plotly(ctx, n, ub, m):
             ok = ok and np.allclose(np.array(a1, dtype=float), w1) and np.allclose(np.array(a2, dtype=float), w2)
             ok = ok and row["kss"] == float(i + 1)
         ctx.prove(ok, "plotly-rows-consistent-with-tree-and-kss-arguments")
+        # any filled id can be the reference of the frame: every node is listed, also nodes whose count is 0
+        del calls[:]
+        df2 = part.to_plotly_dataframe("test", "build")
+        ctx.prove(len(df2) == len(nodes) and len(set(df2["idx"])) == len(nodes), "plotly-lists-every-node-once (filled id as reference)")
+        ok2 = True
+        for row in df2.to_dict("records"):
+            nd, depth = byid[row["idx"]]
+            b, t = nd.num_samples_in_compared_subtrees["build"], nd.num_samples_in_compared_subtrees.get("test", 0)
+            ok2 = ok2 and row["depth"] == depth and row["cell_count"] == t and row["count_diff"] == b - t
+        ctx.prove(ok2, "plotly-rows-consistent-with-tree (filled id as reference)")
+        if any(nd.num_samples_in_compared_subtrees.get("test", 0) == 0 for nd, _, _ in nodes):
+            ctx.witness("zero-count-node")
     ctx.witness("checked")
 
 
@@ -284,5 +296,5 @@ def jobs(tier):
         out.append(Job(f"distn-k{k}", "checks.c08:body_distn", {"k": k}, expect=("lemma",)))
     for n, ub, m in ((3, 1, 2), (2, 1, 1), (3, 2, 2)) + (() if q else ((4, 1, 2),)):
         out.append(Job(f"kl-plotly-n{n}-ub{ub}-m{m}", "checks.c08:body_kl_and_plotly", {"n": n, "ub": ub, "m": m},
-                       expect=("checked",), opts={"validate": 1}))
+                       expect=("checked",) + (("zero-count-node",) if n > ub else ()), opts={"validate": 1}))
     return out
